@@ -172,7 +172,15 @@ def faults(kind, R, eps, rng):
     if kind == 'nfa':
         if 'Q' not in R[1] and eps != 'Q':
             yield 'undeclared_symbol', join(heads, trans + ['%s %s Q' % (a, b)])
+    if kind in ('dfa', 'nfa', 'pda'):
+        # a declared input symbol that is not a symbol (punctuation inside)
+        yield 'invalid_symbol_declared', join([(l + ' ' + rng.choice(['b-c', 'a,b', 'x.y', 'a+'])) if l.startswith('input_symbols') else l for l in heads], trans)
+    if kind == 'nfa':
+        # the epsilon symbol listed among the declared input symbols
+        yield 'epsilon_declared_as_input_symbol', join([(l + ' ' + eps) if l.startswith('input_symbols') else l for l in heads], trans)
     if kind == 'pda':
+        yield 'epsilon_declared_as_input_symbol', join([(l + ' ' + eps) if l.startswith('input_symbols') else l for l in heads], trans)
+        yield 'epsilon_declared_as_stack_symbol', join([(l + ' ' + eps) if l.startswith('stack_symbols') else l for l in heads], trans)
         if 'Q' not in R[1] and eps != 'Q':
             yield 'undeclared_input_symbol', join(heads, trans + ['%s %s Q,%s%s' % (a, b, eps, eps)])
         if 'Q' not in R[2] and eps != 'Q':
